@@ -45,8 +45,14 @@ func main() {
 // runLines feeds every stdin line (split into fields) to step and prints one output line
 // per input line, flushed at once. A panic inside step is an observation: `panic <what>`.
 // The line `reset` starts a new case: mk is called again for a fresh state.
+// opTimeout, when set by a mode, bounds every operation: an operation that does not return is the observation `stuck`
+// (its goroutine is abandoned), and the rest of that case is answered `dead` without calling the implementation again.
+var opTimeout time.Duration
+
 func runLines(mk func() func(fs []string) string) {
 	step := mk()
+	dead := false
+	stuckCases := 0 // after a few cases that hung the implementation the rest of the run is answered `dead` at once
 	in := bufio.NewReaderSize(os.Stdin, 1<<20)
 	out := bufio.NewWriter(os.Stdout)
 	defer out.Flush()
@@ -59,7 +65,17 @@ func runLines(mk func() func(fs []string) string) {
 		var res string
 		if len(fs) == 1 && fs[0] == "reset" {
 			step = mk()
+			dead = stuckCases >= 5
 			res = "reset"
+		} else if dead {
+			res = "dead"
+		} else if opTimeout > 0 {
+			st := step
+			res = withTimeout(opTimeout, func() string { return st(fs) })
+			dead = res == "stuck"
+			if dead {
+				stuckCases++
+			}
 		} else {
 			res = safely(func() string { return step(fs) })
 		}
